@@ -529,6 +529,10 @@ Proof.
   - apply remove_largest_suffix_eq.
 Qed.
 
+(** * Keys *)
+Theorem member_keys_eq_spec : forall sh c, dq_args (member_keys sh c) = keys_spec sh c.
+Proof. intros sh c. unfold member_keys, keys_spec, dq_args. destruct (var sh), c; reflexivity. Qed.
+
 (** * Non-vacuity: the hypotheses of the theorems above hold of ordinary states. *)
 Definition sh_array : shell :=
   {| var := VIdx [(0, abcd); (1, []); (2, [233%N])]; args := [abcd; []]; nounset := true; shell_name := abcd |}.
